@@ -11,17 +11,10 @@ stable = set(base["stable_pass"])
 def run(cmd, **kw):
     return subprocess.run(cmd, stdout=subprocess.PIPE, stderr=subprocess.STDOUT, text=True, **kw)
 
+sys.path.insert(0, os.path.dirname(os.path.abspath(__file__)))
+import pinned
 def suite():
-    x = "/tmp/seed-junit-%d.xml" % os.getpid()
-    run(["/venv/bin/python", "-m", "pytest", "-q", "-p", "no:cacheprovider", "--timeout=900",
-         "--continue-on-collection-errors", "--junitxml=" + x], cwd=wt)
-    import xml.etree.ElementTree as ET
-    ok = set()
-    for tc in ET.parse(x).getroot().iter("testcase"):
-        if not any(c.tag in ("failure", "error", "skipped") for c in tc):
-            ok.add("%s::%s" % (tc.get("classname"), tc.get("name")))
-    os.remove(x)
-    return stable - ok
+    return pinned.lost_tests(wt)
 
 for i in sorted(os.listdir(out)):
     d = os.path.join(out, i)
